@@ -220,3 +220,49 @@ Section Conc4.
   Definition init4 (now0 : N) (progs : list (list op)) : shared * list local4 :=
     (init_shared now0, map (fun p => {| l4_base := init_local p; l4_copy := None |}) progs).
 End Conc4.
+
+(* ------------------------------------------------------------------------------------------ *)
+(* IncrBy is one critical section                                                              *)
+(* ------------------------------------------------------------------------------------------ *)
+(* memory_ops.go IncrBy reads, adds and stores under the WRITE lock: one step of [tstep].  The variant below is a
+   "fast path under the read lock" for a counter that already exists: read locks do not exclude each other, so the load
+   and the store of two callers interleave — modelled as two steps (load the counter; store counter + n and return it).
+   Kept to be refuted (Proofs/KV.incr_under_read_lock_refuted); the harness' "incr" scenario (G goroutines x M IncrBy on
+   one existing counter, every backend) is the same race on the real code. *)
+Record local5 := { l5_base : local; l5_loaded : option (key * Z * Z) }.
+
+Section Conc5.
+  Variable D : N.
+  Variable V : kvariant.
+
+  Definition tstep_incr_under_read_lock (lo : local5) (sh : shared) : local5 * shared :=
+    let m := sh_m sh in
+    let plain := let '(b, sh') := tstep D V (l5_base lo) sh in ({| l5_base := b; l5_loaded := None |}, sh') in
+    match l5_loaded lo with
+    | Some (k, c, n) =>
+        let b := l5_base lo in
+        let r := OInt (wrap64 (c + n)) in
+        let m' := match m k with
+                  | Some it => upd m k (Some {| val := VS (SInt (wrap64 (c + n))); exp := exp it |})
+                  | None => m
+                  end in
+        ({| l5_base := {| lo_prog := tl (lo_prog b); lo_pending := None; lo_seen := lo_seen b ++ [(KIncrBy k n, r)] |};
+            l5_loaded := None |},
+         {| sh_m := m'; sh_now := sh_now sh; sh_log := sh_log sh ++ [(KIncrBy k n, r)] |})
+    | None =>
+        match lo_pending (l5_base lo), lo_prog (l5_base lo) with
+        | None, KIncrBy k n :: _ =>
+            match live (sh_now sh) (m k) with
+            | Some it => match val it with
+                         | VS (SInt c) => ({| l5_base := l5_base lo; l5_loaded := Some (k, c, n) |}, sh)
+                         | _ => plain
+                         end
+            | None => plain          (* absent / expired: the slow path under the write lock *)
+            end
+        | _, _ => plain
+        end
+    end.
+
+  Definition init5 (now0 : N) (progs : list (list op)) : shared * list local5 :=
+    (init_shared now0, map (fun p => {| l5_base := init_local p; l5_loaded := None |}) progs).
+End Conc5.
